@@ -83,45 +83,51 @@ class PersistentRemoteWorker(PersistentWorker, RemoteWorker):
     def _fetch_results(self):
         counter = 0
         last_partial_result_signalled = False
-        while True:
-            try:
-                result = recv_msg(self._socket, comment='data: result')
-            except ConnectionClosedError:
-                logger.debug('Connection closed by the remote peer')
-                self._socket_closed = True
-                self._result = (False, None)
-                if not last_partial_result_signalled:
-                    self._results_pipe.child_end.put((counter, False, None, self.id))
-                    last_partial_result_signalled = True
-                break
-
-            if len(result) > 2:
-                remote_counter, valid, value, wid = result
-                if not valid:
-                    logger.debug('New message signalling end of partial results')
-                    self._results_pipe.child_end.put(result)
-                    last_partial_result_signalled = True
-                    assert remote_counter == counter, f'{remote_counter} {counter}'
-                    assert value is None
-                    assert wid == self.id
-                else:
-                    counter += 1
-                    logger.debug(f'New intermediate result received: {counter}/{remote_counter}')
-                    self._results_pipe.child_end.put(result)
-                    assert counter == remote_counter
-                    assert wid == self.id
-            else:
-                assert len(result) == 2
-                logger.info(f'Final result received')
-                self._result = result
+        try:
+            while True:
                 try:
-                    self._user_state = recv_msg(self._socket, comment='data: user state')
-                    logger.debug('User state received')
-                except:
-                    pass
-                break
+                    result = recv_msg(self._socket, comment='data: result')
+                except ConnectionClosedError:
+                    logger.debug('Connection closed by the remote peer')
+                    self._socket_closed = True
+                    self._result = (False, None)
+                    if not last_partial_result_signalled:
+                        self._results_pipe.child_end.put((counter, False, None, self.id))
+                        last_partial_result_signalled = True
+                    break
 
-        self._results_pipe.child_end.close()
+                if len(result) > 2:
+                    remote_counter, valid, value, wid = result
+                    if not valid:
+                        logger.debug('New message signalling end of partial results')
+                        self._results_pipe.child_end.put(result)
+                        last_partial_result_signalled = True
+                        assert remote_counter == counter, f'{remote_counter} {counter}'
+                        assert value is None
+                        assert wid == self.id
+                    else:
+                        counter += 1
+                        logger.debug(f'New intermediate result received: {counter}/{remote_counter}')
+                        self._results_pipe.child_end.put(result)
+                        assert counter == remote_counter
+                        assert wid == self.id
+                else:
+                    assert len(result) == 2
+                    logger.info(f'Final result received')
+                    self._result = result
+                    try:
+                        self._user_state = recv_msg(self._socket, comment='data: user state')
+                        logger.debug('User state received')
+                    except:
+                        pass
+                    break
+        finally:
+            # whatever has happened, consumers of our results need to know that nothing more is coming
+            if self._result is None:
+                self._result = (False, None)
+            if not last_partial_result_signalled:
+                self._results_pipe.child_end.put((counter, False, None, self.id))
+            self._results_pipe.child_end.close()
 
     # Do not transfer results queue over network
     def __getstate__(self, remote=False):
